@@ -84,6 +84,30 @@ def replay(ck, behaviours, label, chunk=400):
   return mattered, lossy, flagged
 
 
+class SubCheck(core.Check):
+  """Context for binding self-tests: same known-finding routing, but a violation provoked by a
+  deliberately corrupted expectation must not leave a replay file behind."""
+
+  def __init__(self, ck):
+    self.pid, self.level, self.tier, self.seed = ck.pid, ck.level, ck.tier, ck.seed
+    self.work = ck.work
+    self.violations, self.known_hits, self.selftests, self.assumptions = [], {}, [], []
+    self.cov = {"states": 0, "transitions": 0, "traces_validated_against_impl": 0, "samples": [],
+                "evaluations": 0, "distinct_nontrivial": 0, "tlc_runs": [], "calibration": {}}
+    self._distinct = set()
+    self.findings = list(ck.findings)
+    self.quick = ck.quick
+
+  def violation(self, key, what, replay=None):
+    for f in self.findings:
+      if f.get("status") == "open" and (key == f["key"] or key.startswith(f["key"] + "|")):
+        self.known_hits.setdefault(f["key"], f["what"])
+        return False
+    if not any(v[0] == key for v in self.violations):
+      self.violations.append((key, what, None))
+    return True
+
+
 def guarded_selftest(ck, name, rejected, base_ok):
   """A binding self-test corrupts a case that the real code passes.  If the code under test is
   itself wrong for the base case the self-test says nothing - and must not turn the VIOLATION
@@ -199,9 +223,7 @@ def run(ck):
   base0["cfg"] = dict(base["cfg"], tag="base")            # separate jobs
   bad1["cfg"] = dict(base["cfg"], tag="acc")
   bad2["cfg"] = dict(base["cfg"], tag="nu")
-  sub = core.Check(ck.pid, ck.level, ck.tier, ck.seed)
-  sub.work = ck.work
-  sub.findings = []
+  sub = SubCheck(ck)
   _, _, flagged = replay(sub, [base0, bad1, bad2], "selftest")
   guarded_selftest(ck, "R: expected accumulator entry + 1 is flagged", "acc" in flagged, "base" not in flagged)
   guarded_selftest(ck, "R: expected nu entry * 2 is flagged", "nu" in flagged, "base" not in flagged)
@@ -234,8 +256,7 @@ def run(ck):
     f1["events"][1]["mono"] = 1
   cases = [("V: logged accumulator + 1 is rejected", g0), ("V: one uncovered coordinate is rejected", f0),
            ("V: decreasing accumulator with beta2 = 1 is rejected", f1)]
-  sub = core.Check(ck.pid, ck.level, ck.tier, ck.seed)
-  sub.work = ck.work
+  sub = SubCheck(ck)
   have = [(n_, t) for n_, t in cases if t is not None]
   vs = sub.validate("SM3_Trace", "SM3_Trace", [{"cfg": t["cfg"], "events": t["events"]} for _, t in have]) if have else []
   got = {n_: v for (n_, _), v in zip(have, vs)}
